@@ -20,8 +20,172 @@ Theorem C08_apply_touches_only_graveyard : forall keys t,
 Proof. exact gc_apply_frame. Qed.
 Print Assumptions C08_apply_touches_only_graveyard.
 
+(* ==== from the table invariant (Table/Inv.v, Inv3.v) ============================================== *)
+From SV Require Import KeyEnc.Model Table.InvDefs Table.Inv Table.Inv2 Table.Inv3.
+
+(* without a registered delete tracker DeleteAll retains nothing (single Delete: C08_no_tracker_nothing_retained below) *)
+Theorem C08_no_tracker_delete_all_retains_nothing : forall t, t_trackers t = [] ->
+  t_grave (delete_all t) = t_grave t /\ t_graverev (delete_all t) = t_graverev t.
+Proof. exact delete_all_no_trackers. Qed.
+Print Assumptions C08_no_tracker_delete_all_retains_nothing.
+
+(* retained-deleted objects are invisible: no query on the live primary / revision indexes of a table
+   satisfying the invariant returns a graveyard object *)
+Theorem C08_graveyard_invisible_to_queries : forall t o, TInv t -> dead t o ->
+  (forall k, q_get IPrimary k t <> Some o) /\ (forall k, ~ In o (q_list IPrimary k t)) /\
+  ~ In o (q_all t) /\
+  (forall k, q_get IRevision k t <> Some o) /\ (forall k, ~ In o (q_list IRevision k t)) /\
+  (forall k, ~ In o (q_prefix IPrimary k t)) /\ (forall k, ~ In o (q_lower_bound IPrimary k t)) /\
+  (forall k, ~ In o (q_prefix IRevision k t)) /\ (forall k, ~ In o (q_lower_bound IRevision k t)).
+Proof. exact dead_not_in_queries. Qed.
+Print Assumptions C08_graveyard_invisible_to_queries.
+
+(* ... in particular in every table value reachable along a history (root, transaction, snapshots) *)
+Theorem C08_graveyard_invisible_reachable : forall n ops t o, run_bounded (init_db n) ops ->
+  in_db (fst (run (init_db n) ops)) t -> dead t o ->
+  (forall k, q_get IPrimary k t <> Some o) /\ (forall k, ~ In o (q_list IPrimary k t)) /\
+  ~ In o (q_all t) /\
+  (forall k, q_get IRevision k t <> Some o) /\ (forall k, ~ In o (q_list IRevision k t)) /\
+  (forall k, ~ In o (q_prefix IPrimary k t)) /\ (forall k, ~ In o (q_lower_bound IPrimary k t)) /\
+  (forall k, ~ In o (q_prefix IRevision k t)) /\ (forall k, ~ In o (q_lower_bound IRevision k t)).
+Proof. exact reachable_dead_not_in_queries. Qed.
+Print Assumptions C08_graveyard_invisible_reachable.
+
+(* applying a collection pass preserves the invariant (the two graveyard indexes stay in step) *)
+Theorem C08_apply_preserves_invariant : forall keys t, TInv t -> rev_bound t -> TInv (gc_apply_table keys t).
+Proof. exact TInv_gc_apply. Qed.
+Print Assumptions C08_apply_preserves_invariant.
+
 Example C08_nonvacuous :
   let d := fst (run (init_db 1) [OBegin [0%nat]; OInsert 0 (mkP [97] 1 [] [] [] []); OChanges 1 0; OCommit 0;
                                   OBegin [0%nat]; ODelete 0 [97]; OCommit 1]) in
   match d_root d with t :: _ => length (t_graverev t) = 1%nat /\ gc_scan_table (d_wm d) t = [] | _ => False end.
 Proof. vm_compute. split; reflexivity. Qed.
+
+(* ======================================================================================================
+   Second layer (Table/ChangesRet.v, Table/ChangesHist.v).
+   `retained A B D`: every key an iterator with delete cursor D may hold after reading table A (live in
+   A, or deleted in A above D) that is not live in B has a deleted object above D in B's graveyard.
+   `RInv` (Table/ChangesHist.v) is the history invariant: it holds from the creation of a change
+   iterator on, across every operation of the model, including collection scans and applies with
+   arbitrary steps in between (RInv_step); C08_retained_until_delivered is its reading at the end of a run.
+   Re-insert + re-delete between scan and apply: gc_apply only drops the primary-keyed twin of the
+   object found under the scanned revision key; under TInv that twin IS that object (one graveyard
+   entry per primary key, keyed by its own revision), so a newer deletion of the same key (new
+   revision key) is never touched: C08_apply_keeps_undelivered holds for ANY table state at apply time.
+   ====================================================================================================== *)
+From SV Require Import KeyEnc.Model Table.InvDefs Table.Inv Table.ChangesStream Table.ChangesIter
+                       Table.ChangesProofs Table.ChangesRet Table.ChangesHist.
+
+(* applying a scanned key list whose revisions are all at or below watermark D never discards a deleted
+   object above D, whatever happened to the table since the scan *)
+Theorem C08_apply_keeps_undelivered : forall D ks t o, TInv t -> rev_bound t ->
+  (forall k, In k ks -> exists r, r < B64 /\ k = rev_key r /\ r <= D) ->
+  dead t o -> D < o_rev o -> dead (gc_apply_table ks t) o.
+Proof. exact gc_apply_keeps. Qed.
+Print Assumptions C08_apply_keeps_undelivered.
+
+Theorem C08_apply_preserves_retention : forall ks A t D, TInv t -> rev_bound t ->
+  (forall k, In k ks -> exists r, r < B64 /\ k = rev_key r /\ r <= D) ->
+  retained A t D -> retained A (gc_apply_table ks t) D.
+Proof. exact retained_gc_apply. Qed.
+Print Assumptions C08_apply_preserves_retention.
+
+(* writes of a transaction keep what is retained (and retain new deletions) while a tracker is registered *)
+Theorem C08_delete_retains_while_tracked : forall g id t, TInv t ->
+  t_trackers (fst (delete g id t)) = t_trackers t /\ tab_le t (fst (delete g id t)) /\
+  forall A D, t_trackers t <> [] -> D <= t_rev t -> retained A t D -> retained A (fst (delete g id t)) D.
+Proof. exact tstep_delete. Qed.
+Print Assumptions C08_delete_retains_while_tracked.
+
+Theorem C08_modify_keeps_retained : forall g m p t, TInv t ->
+  t_trackers (fst (modify g m p t)) = t_trackers t /\ tab_le t (fst (modify g m p t)) /\
+  forall A D, t_trackers t <> [] -> D <= t_rev t -> retained A t D -> retained A (fst (modify g m p t)) D.
+Proof. exact tstep_modify. Qed.
+Print Assumptions C08_modify_keeps_retained.
+
+(* history level: at every point of every run after the creation of iterator iid (advanced with fresh
+   read transactions; other iterators, closes, commits, aborts of other transactions, collection scans
+   and applies interleaved at will), every key the iterator may hold that is no longer live in the
+   committed root still has its deletion, above the iterator's delete cursor = the tracker's watermark,
+   in the committed graveyard *)
+Theorem C08_retained_until_delivered : forall iid tab d t0 ops,
+  created d iid tab t0 -> wf d ->
+  (forall cur, nth_error (d_root d) tab = Some cur -> ~ reg iid cur) ->
+  tables_ok d /\ ok_run (fst (step d (OChanges iid tab))) ops ->
+  friendly_run iid tab (fst (step d (OChanges iid tab))) ops ->
+  forall it cur,
+  assoc iid (d_iters (fst (run (fst (step d (OChanges iid tab))) ops))) = Some it ->
+  nth_error (d_root (fst (run (fst (step d (OChanges iid tab))) ops))) tab = Some cur ->
+  reg iid cur ->
+  retained (fst (grun iid (t0, []) (fst (step d (OChanges iid tab))) ops)) cur (it_delrev it) /\
+  assoc iid (d_wm (fst (run (fst (step d (OChanges iid tab))) ops))) = Some (it_delrev it).
+Proof. exact fresh_retention. Qed.
+Print Assumptions C08_retained_until_delivered.
+
+(* the invariant behind it, one step *)
+Theorem C08_retention_invariant_step : forall iid tab g d o,
+  wf d -> tables_ok d -> tables_ok (fst (step d o)) ->
+  sinv true iid g d -> RInv iid tab (fst g) d -> friendly iid tab d o ->
+  RInv iid tab (fst (gstep iid g d o)) (fst (step d o)) /\ good_step true iid (fst g) d o.
+Proof. exact RInv_step. Qed.
+Print Assumptions C08_retention_invariant_step.
+
+(* collectable: once every registered tracker has been handed every retained deletion, one scan + apply
+   discards the whole graveyard *)
+Theorem C08_collects_when_caught_up : forall wm t, TInv t -> rev_bound t ->
+  (forall o id r, dead t o -> In id (t_trackers t) -> assoc id wm = Some r -> o_rev o <= r) ->
+  let t' := gc_apply_table (gc_scan_table wm t) t in
+  t_grave t' = [] /\ t_graverev t' = [].
+Proof. exact gc_collects_caught_up. Qed.
+Print Assumptions C08_collects_when_caught_up.
+
+Theorem C08_collection_round_empties_graveyard : forall d tab cur,
+  d_gc d = GGate1 -> d_txn d = None -> nth_error (d_root d) tab = Some cur ->
+  TInv cur -> rev_bound cur ->
+  (forall o id r, dead cur o -> In id (t_trackers cur) -> assoc id (d_wm d) = Some r -> o_rev o <= r) ->
+  exists cur', nth_error (d_root (fst (run d [OGcScan; OGcApply]))) tab = Some cur' /\
+               t_grave cur' = [] /\ t_graverev cur' = [] /\
+               t_primary cur' = t_primary cur /\ t_rev cur' = t_rev cur.
+Proof. exact gc_round_collects. Qed.
+Print Assumptions C08_collection_round_empties_graveyard.
+
+(* no open iterator: nothing is retained by a delete, and anything left over is collectable *)
+Theorem C08_no_tracker_nothing_retained : forall g id t, t_trackers t = [] ->
+  t_grave (fst (delete g id t)) = t_grave t /\ t_graverev (fst (delete g id t)) = t_graverev t.
+Proof. exact delete_without_trackers_retains_nothing. Qed.
+Print Assumptions C08_no_tracker_nothing_retained.
+
+Theorem C08_no_tracker_all_collectable : forall wm t, TInv t -> rev_bound t -> t_trackers t = [] ->
+  let t' := gc_apply_table (gc_scan_table wm t) t in t_grave t' = [] /\ t_graverev t' = [].
+Proof. exact gc_collects_without_trackers. Qed.
+Print Assumptions C08_no_tracker_all_collectable.
+
+(* retained objects never appear in queries or object counts *)
+Theorem C08_retained_not_visible : forall t o, TInv t -> dead t o ->
+  om_get (pk o) (t_primary t) = None /\ (forall o', In o' (q_all t) -> pk o' <> pk o) /\
+  ~ In o (q_all t).
+Proof. exact retained_not_visible. Qed.
+Print Assumptions C08_retained_not_visible.
+
+Theorem C08_count_is_live_objects : forall t, TInv t ->
+  q_num t = N.of_nat (length (t_primary t)) /\ forall o, In o (q_all t) <-> live t o.
+Proof. exact q_num_counts_live. Qed.
+Print Assumptions C08_count_is_live_objects.
+
+(* from the initial database (table invariant discharged by Table/Inv2.v): see Properties/C07.v *)
+From SV Require Import Table.ChangesFromInit.
+
+Theorem C08_from_init_retained_until_delivered : forall n pre iid tab t0 ops,
+  room_run (init_db n) (pre ++ OChanges iid tab :: ops) ->
+  created (fst (run (init_db n) pre)) iid tab t0 ->
+  (forall cur, nth_error (d_root (fst (run (init_db n) pre))) tab = Some cur -> ~ reg iid cur) ->
+  friendly_run iid tab (fst (step (fst (run (init_db n) pre)) (OChanges iid tab))) ops ->
+  forall it cur,
+  assoc iid (d_iters (fst (run (fst (step (fst (run (init_db n) pre)) (OChanges iid tab))) ops))) = Some it ->
+  nth_error (d_root (fst (run (fst (step (fst (run (init_db n) pre)) (OChanges iid tab))) ops))) tab = Some cur ->
+  reg iid cur ->
+  retained (fst (grun iid (t0, []) (fst (step (fst (run (init_db n) pre)) (OChanges iid tab))) ops)) cur (it_delrev it) /\
+  assoc iid (d_wm (fst (run (fst (step (fst (run (init_db n) pre)) (OChanges iid tab))) ops))) = Some (it_delrev it).
+Proof. exact init_retention. Qed.
+Print Assumptions C08_from_init_retained_until_delivered.
